@@ -93,7 +93,7 @@ def worker_init():
 
 def make(seed, dt=None, rounds=None):
     rng = random.Random(seed)
-    dt0 = rng.choice(["1", "0.5", "0.25"])
+    dt0 = rng.choice(["1", "0.5", "0.25", "0.4", "0.75", "0.3"])       # (reciprocal not whole for the last three: the scheduler makes round(1/dt) steps per round)
     rounds0 = rng.randint(2, 4)
     dt = dt or dt0
     rounds = rounds or rounds0
